@@ -2,8 +2,11 @@
    Statements only; every proof is `exact Lemmas.<name>`.
 
    Reading guide.  [veq a b = true] is equality by value of two key cells, decoded from their stored
-   bytes (ints exactly, strings up to padding, floats by bit pattern with +0.0 = -0.0, an int meets a
-   float through the int -> float64 conversion).  [selected m i] = element i of mask m is True.
+   bytes (ints exactly, strings up to padding, floats by bit pattern with +0.0 = -0.0, an int against a
+   float exactly, as numbers).  numpy compares an int64 with a float64 after converting the int to
+   float64; [conv_ok] (part of [nn_domain], and of the domain check of run_case for every shape) holds
+   when that conversion does not blur the pair, i.e. except for an integer beyond 2^53 next to the
+   double it rounds to without being equal to it.  [selected m i] = element i of mask m is True.
    [join_mask left (select mr right) c1 c2] is what get_mask_with_key_joins computes for this dataset's
    (viewed) rows [left], the other dataset's rows [right], the mask [mr] the other dataset answered,
    and the join's component tuples c1 (own) / c2 (other).  [get_mask fuel S flags d view] is
